@@ -106,7 +106,7 @@ BOUNDS = {
         'RotatedSweepMatchDecoder': {'n_max': 16, 'n_hard': 100, 'n_full': 0, 'n_star': 0, 'n_w2': 10,
                                      'split': True,
                                      'classes': {'RotatedToric3DCode': {'n_max': 6, 'n_star': 4}}},
-        'XCubeMatchingDecoder': {'n_max': 24, 'n_hard': 100, 'n_full': 0, 'n_star': 24, 'n_w2': 0, 'split': True},
+        'XCubeMatchingDecoder': {'n_max': 36, 'n_hard': 100, 'n_full': 0, 'n_star': 24, 'n_w2': 0, 'split': True},
         'BeliefPropagationOSDDecoder': {'n_max': 16, 'n_hard': 100, 'n_full': 4, 'n_star': 6, 'n_w2': 12,
                                         'split': False, 'classes': {'Toric2DCode': {'n_star': 8}}},
         'MemoryBeliefPropagationDecoder': {'n_max': 6, 'n_hard': 12, 'n_full': 0, 'n_star': 4, 'n_w2': 0,
